@@ -15,6 +15,7 @@ type GenOpts struct {
 	MaxMembers     int
 	MaxInstances   int
 	MaxPathLen     int
+	MinPathLen     int
 	AllowByz       bool
 	AllowSilent    bool
 	HonestQuorum   bool // live honest power must be a strong quorum in every instance
@@ -52,7 +53,29 @@ func rolesOK(table gpbft.PowerEntries, honest, byz []gpbft.ActorID, needQuorum b
 
 // GenConfig draws a world configuration.
 func GenConfig(t *rapid.T, o GenOpts) *Config {
-	spec := vgen.Entries(t, "tbl", 1, o.MaxMembers)
+	minMembers := 1
+	if rapid.IntRange(0, 9).Draw(t, "atleast3") > 0 && o.MaxMembers >= 4 {
+		minMembers = 3 + rapid.IntRange(0, 1).Draw(t, "atleast4")
+	}
+	spec := vgen.Entries(t, "tbl", minMembers, o.MaxMembers)
+	if rapid.IntRange(0, 9).Draw(t, "balanced") < 7 {
+		// most worlds: no member close to a quorum on its own, otherwise consensus is trivial;
+		// occasionally dust members (zero scaled power) are mixed in
+		for i := range spec.Entries {
+			pw := int64(1000 + rapid.IntRange(0, 400).Draw(t, "balpow"))
+			if rapid.IntRange(0, 11).Draw(t, "baldust") == 0 && i > 0 {
+				pw = 0
+			}
+			if pw == 0 {
+				spec.Entries[i].Power = gpbft.StoragePower{Int: big.NewInt(0).SetUint64(1)}
+				// dust only matters relative to a huge total: scale the others instead
+			} else {
+				spec.Entries[i].Power = gpbft.StoragePower{Int: new(big.Int).Mul(big.NewInt(pw), big.NewInt(1_000_000))}
+			}
+		}
+		spec.Entries = vref.Canonical(spec.Entries)
+		spec.Kind = "balanced"
+	}
 	table := spec.Entries
 	cfg := &Config{
 		NN:        "vnet",
@@ -131,7 +154,7 @@ func GenConfig(t *rapid.T, o GenOpts) *Config {
 			copy(ic.Supp.Commitments[:], vgen.DetBytes(32, "suppc", k))
 		}
 		// inputs: a canonical path and per-node deviations
-		L := rapid.IntRange(0, o.MaxPathLen).Draw(t, "pathlen")
+		L := rapid.IntRange(min(o.MinPathLen, o.MaxPathLen), o.MaxPathLen).Draw(t, "pathlen")
 		canon := make([]int, L)
 		for _, id := range cfg.Honest {
 			p := append([]int(nil), canon...)
